@@ -29,6 +29,7 @@ type (
 		Vars   [][2]string // name, type
 		Body   SExpr
 		Pats   []SExpr
+		AltPats [][]SExpr
 	}
 	SIndex struct{ X, I SExpr }
 	SSlice struct{ X, Lo, Hi SExpr }
@@ -220,13 +221,19 @@ func (ps *specParser) expr() SExpr {
 			ps.expect(",")
 		}
 		// optional patterns { e, e }
+		// each brace group is one multi-pattern; several groups are alternatives
 		for ps.isOp("{") {
 			ps.next()
-			q.Pats = append(q.Pats, ps.expr())
+			grp := []SExpr{ps.expr()}
 			for ps.accept(",") {
-				q.Pats = append(q.Pats, ps.expr())
+				grp = append(grp, ps.expr())
 			}
 			ps.expect("}")
+			if q.Pats == nil {
+				q.Pats = grp
+			} else {
+				q.AltPats = append(q.AltPats, grp)
+			}
 		}
 		q.Body = ps.expr()
 		return q
